@@ -18,7 +18,7 @@ RULE = ("for every numeric field of every transaction kind: the integers {0,1,0x
         "the doubles adjacent to powers of two and to random integers, 2^64 literal, 2^256, empty, 0x, bad digits, spaces, underscores, bool, null, array, object), may-zone spellings "
         "(0b, 0o, +); float literals that are not exactly representable (known finding K1); byte fields (odd length, no prefix, "
         "upper case, non-hex), addresses of 19/20/21 bytes, storage keys of 31/32/33 bytes; a case is distinct by its document")
-TRUSTED = ["C13: serde_json tokenisation is outside the model (DESIGN 4.4): the model receives serde_json's own parse of the document; "
+TRUSTED = ["C13: serde_json's reading of the bytes is modelled in Model/JsonText.v (integer literals exact: Props/C13j.v) and compared on every run (json-text-vs-model); which double its floating-point reader returns for the other literals is a parameter of the model, compared up to 2 ulp (DESIGN 4.4); the number-field models receive serde_json's own parse of the document; "
            "the exactness clause is checked on the literal text with exact rationals in Python",
            "C13: ethnum from_str_prefixed / permissive visitor, hex::decode, ethaddr parsing semantics as stated in Model/Num.v"]
 
@@ -244,6 +244,10 @@ def run(ctx):
         for nd in (38, 39, 40, 41, 42):
             docs.append(render(base_doc(kind), "to", '"0x%s"' % ("a" * nd)))
             meta.append((kind, "to", "0x" + "a" * nd, bytes.fromhex("aa" * 20) if nd == 40 else None, "address-digit-count"))
+        # a 20-byte address written as a zero-padded 32-byte word (ABI word / event topic), right-padded, one zero byte in front
+        for tv in ("0x" + "00" * 12 + "ab" * 20, "0x" + "ab" * 20 + "00" * 12, "0x00" + "ab" * 20, "0x" + "00" * 32, "0x" + "00" * 12 + "00" * 20, "00" * 12 + "ab" * 20):
+            docs.append(render(base_doc(kind), "to", '"%s"' % tv))
+            meta.append((kind, "to", tv, None, "address-padded-word"))
         for ch in "+-_ xXgG.":
             for pos in (0, 1, 20, 39):
                 h = list("ab" * 20)
@@ -267,6 +271,15 @@ def run(ctx):
                     al = '[["0x%s",["0x%s"]]]' % ("33" * 20, "".join(h))
                     docs.append(render(base_doc(kind), "accessList", al))
                     meta.append((kind, "accessList", al, None, "storage-key-stray-char"))
+            # a second prefix inside the key, a key left-padded to more than 32 bytes, an address given as a padded 32-byte word
+            for key_ in ("0x" + "0a" * 32, "0x" + "0a" * 31, "0X" + "0a" * 32, "0x0x0x" + "0a" * 32, "00" * 12 + "0a" * 32, "0x" + "00" * 12 + "0a" * 32, "0x" + "00" + "0a" * 32):
+                al = '[["0x%s",["0x%s"]]]' % ("33" * 20, key_)
+                docs.append(render(base_doc(kind), "accessList", al))
+                meta.append((kind, "accessList", al, None, "storage-key-second-prefix-or-padding"))
+            for adr_ in ("00" * 12 + "33" * 20, "00" + "33" * 20, "33" * 20 + "00" * 12, "0x" + "33" * 20):
+                al = '[["0x%s",[]]]' % adr_
+                docs.append(render(base_doc(kind), "accessList", al))
+                meta.append((kind, "accessList", al, "may" if adr_.startswith("0x") else None, "access-list-address-padded(may)" if adr_.startswith("0x") else "access-list-address-padded"))
             for nd in (39, 41):
                 al = '[["0x%s",[]]]' % ("3" * nd)
                 docs.append(render(base_doc(kind), "accessList", al))
